@@ -1,3 +1,4 @@
+import DepLogic.Model.Quote
 import DepLogic.Model.SpecParse
 import DepLogic.Model.Generic
 import DepLogic.Model.Pep440
@@ -762,14 +763,10 @@ def only : Nat → M → List String → M
 
 /-! ### text -/
 
-/-- `_quote(value)` (the `fix:` for D27): backslashes doubled, line breaks escaped, single quotes around a value
-    that contains a double quote (and no single quote), `\x22` otherwise -/
-def quoteS (v : String) : String :=
-  let v := ((v.replace "\\" "\\\\").replace "\n" "\\n").replace "\r" "\\r"
-  -- the `fix:` for D36: a NUL is written as an escape (a Lean `Char` is never a surrogate)
-  let v := v.replace (String.singleton (Char.ofNat 0)) "\\u0000"
-  if v.contains '"' && !v.contains '\'' then "'" ++ v ++ "'"
-  else "\"" ++ v.replace "\"" "\\x22" ++ "\""
+/-- `_quote(value)` (the `fix:`es for D27, D36): `Quote.quoteL` on the characters — backslashes doubled, line breaks
+    and NUL escaped, single quotes around a value that contains a double quote (and no single quote), `\x22`
+    otherwise.  Read back by packaging as the same value for every string: `C07.read_quote` -/
+def quoteS (v : String) : String := String.ofList (Quote.quoteL v.toList)
 
 def _root_.DepLogic.Atom.str (a : Atom) : String :=
   if a.reversed then quoteS a.value ++ " " ++ a.op.reflect.str ++ " " ++ a.name
